@@ -2,7 +2,7 @@
 the constructor plumbing (Screen.__init__, verified there), the validator numpy_array_is_0_indexed_integers, and the experiment-space
 sizes that bound every id."""
 import z3
-from pyvc.spec import contract, TObj, TAObj, TInt, TBool, TTuple, TStr, NS, Forall, Lemma
+from pyvc.spec import contract, TObj, TAObj, TInt, TBool, TTuple, TStr, NS, Forall, Lemma, Using
 from pyvc.values import Int, Bool, Real, Str
 from pyvc.lib.arrays import TArr, Arr
 from .screen import *  # noqa
@@ -67,3 +67,49 @@ def _nt_post(a, ret, st):
 
 
 nt.ensures("bound", _nt_post)
+
+
+# ---- ExperimentSpace.n_unique_samples: for a duplicate-free sample mapping it is the mapping's length, hence (dense ids) above every id
+StrArr = z3.ArraySort(Int, Str)
+dup1 = z3.Function("dup_first", StrArr, Int, StrArr, Int, Int)
+dup2 = z3.Function("dup_second", StrArr, Int, StrArr, Int, Int)
+unmatched = z3.Function("unmatched_position", StrArr, Int, StrArr, Int, Int)
+
+
+def _distinct_le(a_, L, u, m):
+    """Lean distinct_le in contrapositive, skolemised form: L <= m, or two positions below L hold the same value, or some position below L holds
+    a value that occurs nowhere in u[0..m)"""
+    j = z3.Int("j!dl")
+    i1, i2, i3 = dup1(a_, L, u, m), dup2(a_, L, u, m), unmatched(a_, L, u, m)
+    return z3.Implies(z3.And(L >= 0, m >= 0), z3.Or(
+        L <= m,
+        z3.And(i1 >= 0, i1 < i2, i2 < L, z3.Select(a_, i1) == z3.Select(a_, i2)),
+        z3.And(i3 >= 0, i3 < L, z3.ForAll([j], z3.Implies(z3.And(j >= 0, j < m), z3.Select(u, j) != z3.Select(a_, i3)), patterns=[z3.Select(u, j)]))))
+
+
+distinct_le = Lemma("distinct_le", _distinct_le, "lean:Batchie.distinct_le", "L pairwise distinct values all occurring in u[0..m) -> L <= m (contrapositive, skolemised)")
+
+ns = contract(ES + ".n_unique_samples", params=[("self", T_es)], returns=TInt)
+ns.requires(lambda a: [keys_distinct1(a.self.fields["sample_mapping"][0], a.self.fields["sample_mapping"][0].shape[0]),
+                       a.self.fields["sample_mapping"][1].shape[0] == a.self.fields["sample_mapping"][0].shape[0], dense_ids(a.self.fields["sample_mapping"][1])])
+
+
+def _ns_post(a, ret, st):
+    smn, smi = a.self.fields["sample_mapping"]
+    u = st.ctx.ghost.get("last_unique")
+    if u is None:
+        return [("size_is_a_count_of_distinct_names", z3.BoolVal(False))]
+    L = smn.shape[0]
+    inst = distinct_le(smn.data, L, u.data, u.shape[0])
+    w = unmatched(smn.data, L, u.data, u.shape[0])
+    d1, d2 = dup1(smn.data, L, u.data, u.shape[0]), dup2(smn.data, L, u.data, u.shape[0])
+    return [("one_per_mapped_sample", Using([inst, z3.Select(smn.data, w) == z3.Select(smn.data, w), z3.Select(smn.data, d1) == z3.Select(smn.data, d1),
+                                             z3.Select(smn.data, d2) == z3.Select(smn.data, d2)], ret == L)),
+            ("size_strictly_bounds_every_sample_id", Forall(
+                [("k!ns", Int)], lambda kk: z3.Implies(z3.And(kk >= 0, kk < smi.shape[0]), z3.Select(smi.data, kk) < ret),
+                patterns=lambda kk: [z3.Select(smi.data, kk)], hints=lambda k0: [z3.Select(smi.data, k0)],
+                lemmas=lambda k0: [dense_bound(smi.data, smi.shape[0], z3.Select(smi.data, k0)),
+                                   dense_ids_at(smi, k0, miss(smi.data, smi.shape[0], z3.Select(smi.data, k0)))]))]
+
+
+ns.ensures("count", _ns_post)
